@@ -54,8 +54,10 @@ def expected_files(case, base):
     roots_abs = [os.path.join(base, r) if r else base for r in case['roots']]
 
     def module_name(path):
-        best = max((r for r in roots_abs if path.startswith(r + os.sep)), key=len)
-        return path[len(best) + 1:][:-3].replace(os.sep, '.')
+        # with nested roots a file has one dotted name per root that contains it; --module accepts the file
+        # when any of them is accepted (the longest root is tried first)
+        return [path[len(r) + 1:][:-3].replace(os.sep, '.')
+                for r in sorted(set(roots_abs), key=len, reverse=True) if path.startswith(r + os.sep)]
 
     def walk(rel):
         node = nodes[rel]
@@ -94,7 +96,7 @@ def expected_files(case, base):
             found.append(f)
     out = []
     for f in found:
-        if case['module'] and not model.accepts(case['module'], module_name(f)):
+        if case['module'] and not any(model.accepts(case['module'], nm) for nm in module_name(f)):
             excluded.setdefault('module-filter', []).append(f)
             continue
         out.append(f)
